@@ -31,6 +31,8 @@ class Cfg:
     p_binary: float = 0.25
     avoid_order_loss: bool = True  # steer away from binary ops / materialize on an un-sliced sort (SQL)
     pred_depth: int = 2
+    p_plit: int = 10  # percentage of atomic predicates that are TRUE / FALSE literals
+    p_wrap: int = 10  # percentage of predicates combined with a constant-foldable operand (OR[p, FALSE], AND[TRUE, p], ...)
     expr_depth: int = 2
     prelude: float = 0.0  # probability of starting from a drawn SELECT state (subset of sort/proj/dedup/slice)
     avoid: frozenset = frozenset()  # keys of known findings whose trigger region generation steers around
@@ -161,6 +163,25 @@ MOTIFS = {
 }
 
 
+TRIVIAL_FALSE = (("plit", False), ("or", ()), ("not", ("plit", True)), ("and", (("plit", True), ("plit", False))))
+TRIVIAL_TRUE = (("plit", True), ("and", ()), ("not", ("plit", False)), ("or", (("plit", False), ("plit", True))))
+
+
+@st.composite
+def st_wrapped_pred(draw, cols, cfg, depth=None):
+    """A predicate, possibly combined with constant-foldable operands in a way that must not change its meaning."""
+    p = draw(st_pred(cols, cfg.pred_depth if depth is None else depth, plit=cfg.p_plit))
+    if draw(st.integers(0, 99)) >= cfg.p_wrap:
+        return p
+    conn = draw(st.sampled_from(["or", "and"]))
+    neutral = draw(st.sampled_from(TRIVIAL_FALSE if conn == "or" else TRIVIAL_TRUE))
+    ops = [p, neutral]
+    if draw(st.booleans()):
+        ops.append(draw(st.sampled_from(TRIVIAL_FALSE if conn == "or" else TRIVIAL_TRUE)))
+    ops = draw(st.permutations(ops))
+    return (conn, tuple(ops))
+
+
 @st.composite
 def st_unary_node(draw, src, cols, universe, kinds, cfg, counter=None, hidden=()):
     """Draw a unary operation valid for a source with columns `cols`.  Returns a node or None."""
@@ -186,7 +207,7 @@ def st_unary_node(draw, src, cols, universe, kinds, cfg, counter=None, hidden=()
             keep = len(order) - 1
         return ("proj", src, tuple(order[:keep]))
     if k == "sel":
-        return ("sel", src, draw(st_pred(cols, cfg.pred_depth)))
+        return ("sel", src, draw(st_wrapped_pred(cols, cfg)))
     if k == "dedup":
         return ("dedup", src)
     if k == "sort":
@@ -361,7 +382,7 @@ def st_program(draw, cfg, universe=None, leaves=None):
                 allc = cols | schema(other, leaves)
                 pred = None
                 if allc and draw(st.integers(0, 2)) == 0:
-                    pred = draw(st_pred(allc, 1))
+                    pred = draw(st_wrapped_pred(allc, cfg, 1))
                 node = ("join", main, other, pred) if draw(st.booleans()) else ("join", other, main, pred)
         if node is not None:
             main = node
